@@ -7,3 +7,4 @@ import WowVerif.Props.C08
 import WowVerif.Props.C09
 import WowVerif.Props.C12
 import WowVerif.Props.C11
+import WowVerif.Props.C20
